@@ -126,6 +126,11 @@ MNext ==
     \/ \E how \in {"update_block", "set_block"}, n \in {1, 2} : MoveBlock(how, n)
     \/ \E i \in 1..2 : CodeInfo(i)
 
+(* how often an operation runs a handler of the contract under test on a chain: the operations that talk to the contract run   *)
+(* the handler they name exactly once (histories keep to operations the chain admits), the harness's own helpers run none      *)
+HandlerOps == {"instantiate", "exec", "query", "sudo", "migrate"}
+RunsOf(o) == IF o.op \in HandlerOps THEN 1 ELSE 0
+
 (* C12 at design level: the contract's state is a function of the history -- a handler error (or a refused    *)
 (* operation) leaves no trace, every success leaves exactly its own                                          *)
 MethodOfHist(o) == IF o.op = "instantiate" THEN InstM ELSE IF o.op = "migrate" THEN MigM
